@@ -80,7 +80,9 @@ def delimited_case(draw, loaders=None):
         fault = None
     return {"loader": loader, "rows": rows, "delim": draw(st.sampled_from(DELIMS)), "comments": draw(st.sampled_from(["none", "none", "even", "first", "last"])),
             "final_newline": draw(st.booleans()), "route": draw(st.sampled_from(["stringio", "path"])),
-            "fault": fault, "fault_row": draw(st.integers(0, 5)), "fault_col": draw(st.integers(0, 2)), "crlf": draw(st.integers(0, 5)) == 0}
+            "fault": fault, "fault_row": draw(st.integers(0, 5)), "fault_col": draw(st.integers(0, 2)), "crlf": draw(st.integers(0, 5)) == 0,
+            # the comment= keyword: default '#', another marker, or None (comments disabled -> the file has no comment lines)
+            "comment_marker": draw(st.sampled_from(["#", "#", "#", "%", "//", None]))}
 
 
 def _fmt(v):
@@ -161,6 +163,13 @@ def pred_delimited(case, ctx):
     fn = getattr(mio, loader)
     route = case["route"]
     kw = {"delimiter": rx}
+    marker = case.get("comment_marker", "#")
+    if marker != "#":
+        kw["comment"] = marker
+        ctx.event("comment_keyword:%r" % (marker,))
+    if marker is None:
+        case = dict(case, comments="none")
+    cc = marker or "#"
     fault = case["fault"]
     crlf = case["crlf"] and route == "path"     # universal newlines apply to real files only
     if fault in ("missing_col", "extra_col", "bad_number"):
@@ -177,10 +186,10 @@ def pred_delimited(case, ctx):
             j = [k for k, t in enumerate(kinds) if t == "f"][case["fault_col"] % kinds.count("f")]
             bad[i][j] = _fmt(bad[i][j]) + "x"
             what = "an unparsable number"
-        txt, where = build_text(bad, sep, case["comments"], case["final_newline"], crlf)
+        txt, where = build_text(bad, sep, case["comments"], case["final_newline"], crlf, comment_char=cc)
         if route == "path" and not _encodable(txt):
             route = "stringio"
-        if sep.join(_fmt(v) for v in bad[i]).startswith("#"):
+        if sep.join(_fmt(v) for v in bad[i]).startswith(cc) and marker is not None:
             ctx.skip("corrupted row begins with the comment marker and is legitimately ignored")
             return False
         if fault == "missing_col" and kinds == ["f", "s"] and j == 0 and rx == r"\s+":
@@ -210,7 +219,7 @@ def pred_delimited(case, ctx):
             rows[0][0], rows[1][0] = 10.0, 2.0     # unsorted
         else:
             fault = None
-    txt, where = build_text(rows, sep, case["comments"], case["final_newline"], crlf)
+    txt, where = build_text(rows, sep, case["comments"], case["final_newline"], crlf, comment_char=cc)
     if route == "path" and not _encodable(txt):
         route = "stringio"
     with deliver(txt, route) as obj:
